@@ -4,6 +4,7 @@ Property theorems only; the model is `Model/Config.lean`.
 -/
 import PrimaiteModel.Model.Config
 import PrimaiteModel.Props.C07
+import PrimaiteModel.Gen.Config
 namespace Primaite.Config
 open Primaite.Acl
 
@@ -958,5 +959,48 @@ theorem C20_flatten_length {α} (l : List (α ⊕ List α)) :
 example : scheduleDocs (⟨[(1, ["g1", "r1"]), (0, ["g0", "r0"])],
     [("g0", "G0"), ("g1", "G1"), ("r0", "R0"), ("r1", "R1")], "BASE"⟩ : Schedule String) 3
     = some ["G1", "R1", "BASE"] := by decide
+
+/-! ### tie to the regenerated tables (Gen/Config.lean is rewritten from the source on every run) -/
+
+/-- every mapping-iteration site of the loaders, with the lemma that makes the order of that mapping's entries irrelevant. -/
+def coveredSites : List ((String × String) × String) := [
+  (("PrimaiteGame.from_config", "sorted(node_cfg['network_interfaces'].items(), key=lambda item: item[0])"), "C20_site_network_interfaces_items"),
+  (("Node._install_system_software", "self.SYSTEM_SOFTWARE.items()"), "class constant, not part of the scenario"),
+  (("Router.from_config", "ports.items()"), "C20_site_ports_items"),
+  (("Router.from_config", "acl.items()"), "C20_site_acl_items"),
+  (("Firewall.from_config", "config['acl']['internal_inbound_acl'].items()"), "C20_site_acl_items"),
+  (("Firewall.from_config", "config['acl']['internal_outbound_acl'].items()"), "C20_site_acl_items"),
+  (("Firewall.from_config", "config['acl']['dmz_inbound_acl'].items()"), "C20_site_acl_items"),
+  (("Firewall.from_config", "config['acl']['dmz_outbound_acl'].items()"), "C20_site_acl_items"),
+  (("Firewall.from_config", "config['acl']['external_inbound_acl'].items()"), "C20_site_acl_items"),
+  (("Firewall.from_config", "config['acl']['external_outbound_acl'].items()"), "C20_site_acl_items"),
+  (("WirelessRouter.from_config", "config['acl'].items()"), "C20_site_acl_items"),
+  (("ActionManager.__init__", "self.config.action_map.items()"), "C20_site_action_map_items")]
+
+/-- The regenerated inventory of mapping-iteration sites is exactly the list of sites that have a per-site lemma: a new
+`.items()` / `.values()` / `for k in mapping` in a loader, or a loop that stops sorting, breaks this obligation. -/
+theorem C20_gen_sites_covered : Gen.Config.sites = coveredSites.map (·.1) := by decide
+
+/-- constants and tables of the model are the ones in the source. -/
+theorem C20_gen_constants :
+    defaultBandwidth = Gen.Config.defaultBandwidth ∧ defaultDuration = Gen.Config.defaultStartUp ∧
+    defaultDuration = Gen.Config.defaultShutDown ∧ defaultRouterPorts = Gen.Config.routerPorts ∧
+    defaultSwitchPorts = Gen.Config.switchPorts ∧ Gen.Config.firewallExtraPorts = 0 ∧
+    hostSystem.map (·.1) = Gen.Config.hostSystemKeys.map (fun k => if k = "host-arp" then "arp" else k) ∧
+    Gen.Config.computerSystemKeys = ["**", "ftp-client"] ∧
+    routerSystem.map (·.1) = Gen.Config.routerSystemKeys ++ ["icmp", "arp", "nmap"] ∧
+    fwAclNames.map (fun e => (e.1, if e.2.1 = Action.permit then "PERMIT" else "DENY")) = Gen.Config.firewallAcls ∧
+    (fwAclNames.filter (·.2.2)).map (·.1) = Gen.Config.firewallAclMandatory ∧
+    (fwAclNames.filter (fun e => !e.2.2)).map (·.1) = Gen.Config.firewallAclOptional ∧
+    Gen.Config.routerDefaultRulePositions = [22, 23] ∧ Gen.Config.defaultsKeysConsistent = true := by decide
+
+/-- `EpisodeListScheduler.__call__` has the shape `scheduleDocs` models: wrap by `% len`, read the schedule by key, join the
+variants in listed order followed by the base scenario. -/
+theorem C20_gen_schedule_shape : Gen.Config.scheduleWrapsModLen = true ∧ Gen.Config.scheduleVariantsThenBase = true ∧
+    Gen.Config.scheduleReadByKey = true := by decide
+
+/-- F-22 is still open in the source: nothing ever writes the map that `install` consults, so the guard cannot fire
+(when this obligation breaks the finding has been repaired and `installAll` / `registered` must follow the new code). -/
+theorem C20_gen_install_guard_dead : Gen.Config.installGuardMapWrites = 0 := by decide
 
 end Primaite.Config
